@@ -141,7 +141,7 @@ int run_struct(const Args& a) {
         // window of keys the writers work on
         std::size_t wlen = std::min<std::size_t>(keys.size(), r.range(40, 400));
         std::size_t wlo = r.below(keys.size() - wlen + 1);
-        ctl::Profile prof = make_profile(r, delays ? static_cast<int>(r.below(6)) : 0);
+        ctl::Profile prof = make_profile(r, delays ? static_cast<int>(r.below(7)) : 0);
         ctl::g_profile.store(delays ? &prof : nullptr);
         uint64_t bseed = seed * 92821 + b;
         std::atomic<int> writers_left{T};
